@@ -286,7 +286,8 @@ class Serializable(eqx.Module):
         if not path.parent.exists():
             path.parent.mkdir(parents=True, exist_ok=True)
         if path.suffix != ".eqx" and not no_suffix:
-            path = path.with_suffix(".eqx")
+            # append, never replace: "model.v1" -> "model.v1.eqx"
+            path = path.with_name(path.name + ".eqx")
 
         eqx.tree_serialise_leaves(path, self)
 
@@ -301,6 +302,10 @@ class Serializable(eqx.Module):
         Deserialize the model from the specified path.
         Must provide any additional arguments required by the class constructor.
 
+        The ".eqx" suffix is appended to the path under the same rule as in
+        `serialize` (a file saved with `no_suffix=True` is still found under its
+        literal name).
+
         Args:
             path: The path to deserialize from.
             *args: Additional arguments to pass to the class constructor
@@ -309,6 +314,12 @@ class Serializable(eqx.Module):
         Returns:
             The deserialized model.
         """
+        path = Path(path)
+        if path.suffix != ".eqx":
+            suffixed = path.with_name(path.name + ".eqx")
+            if suffixed.exists() or not path.exists():
+                path = suffixed
+
         return eqx.tree_deserialise_leaves(
             path, eqx.filter_eval_shape(cls, *args, **kwargs)
         )
